@@ -136,7 +136,7 @@ def k_emit(P, opspecs):
         for (name, loc, req, ptype) in sp.get("params", []):
             params.append(_param(P, name, loc, req, ptype, color))
         body = _body(P, sp["body"], a, b)
-        ops.append(P.IROperation(operation_id=sp["opid"], method=P.HTTPMethod.POST if body else P.HTTPMethod.GET, path="/things/{id}/%d" % i,
+        ops.append(P.IROperation(operation_id=sp["opid"], method=P.HTTPMethod.POST if body else P.HTTPMethod.GET, path=("/things/{id}/%d" % i) + ("/{vid}" if sp.get("implicit") else ""),  # `vid`: a path variable that no parameter declares
                                  summary="Do it", description="Longer text.", parameters=params, request_body=body,
                                  responses=_responses(P, sp["resp"], sp["second"], a, b), tags=["things"]))
 
